@@ -474,6 +474,9 @@ def check(ctx):
     join_restarts(ctx, "R14-g", ("AsyncIOBackend.run_async_from_thread.task_wrapper",), 1)
     restart_walker(ctx, "R14-g")
 
+    # ---- R14-i the default limiter outlives root tasks: the run-variable store is never dropped wholesale
+    run_var_store_intact(ctx, "R14-i")
+
     # ---- R14-h "never more running calls than the limiter's total": every grant of a token is capacity-guarded (shared with C10/R10-a)
     from .c10 import grants_capacity_guarded
     grants_capacity_guarded(ctx, "R14-h")
@@ -524,3 +527,33 @@ def loop_entry_points(ctx, RULE):
         s = ctx.sites(f, f"return token.backend_class.{target}(func, args, token=$T)")
         ctx.ob(RULE, f, f"from_thread.{q} forwards func and args to the backend and returns its value", len(s) == 1, detail="" if s else f"no `return token.backend_class.{target}(func, args, ...)`",
                by=("delegation",))
+
+
+def run_var_store_intact(ctx, rule):
+    """the per-event-loop store of run variables (`lowlevel._run_vars`: default thread limiter, worker pool, root task, ...) is created per
+    loop by RunVar and never dropped or replaced wholesale by anybody else: a clean-up that pops the loop's whole entry would silently
+    reset the default limiter to a fresh one with the default 40 tokens while calls still hold tokens of the old one"""
+    bad = []
+    n = 0
+    for rel, tree in ctx.repo.non_trio_modules().items():
+        for x in ctx.live_walk(tree):
+            if isinstance(x, ast.Name) and x.id == "_run_vars":
+                n += 1
+                par = getattr(x, "_parent", None)
+                f_ = ctx.repo.func_of(x)
+                q_ = f_.qual if f_ else "<module>"
+                write = None
+                if isinstance(par, ast.Subscript) and par.value is x and isinstance(par.ctx, (ast.Store, ast.Del)):
+                    write = "subscript " + type(par.ctx).__name__.lower()
+                elif isinstance(par, ast.Attribute) and par.value is x and par.attr in ("pop", "popitem", "clear", "update", "setdefault", "__delitem__", "__setitem__"):
+                    write = "call:" + par.attr
+                elif isinstance(x.ctx, (ast.Store, ast.Del)) and q_ != "<module>":
+                    write = "rebinding"
+                if write and not (rel.endswith("lowlevel.py") and (f_ is None or f_.cls == "RunVar")):
+                    bad.append((f_, x, write, rel))
+    anchor = ctx.fn("AsyncIOBackend.current_default_thread_limiter", A)
+    ctx.floor(rule, "references to lowlevel._run_vars", n, 3)
+    ctx.ob(rule, bad[0][0] if bad and bad[0][0] else anchor, "the per-loop store of run variables is only ever filled by RunVar (no wholesale removal elsewhere)", not bad,
+           node=stmt_of(bad[0][1]) if bad else None,
+           detail="" if not bad else f"`{norm(stmt_of(bad[0][1]))}` ({bad[0][2]}) in src/anyio/{bad[0][3]}: drops or replaces every run variable of the loop, the default thread limiter included",
+           by=("writer table of _run_vars",))
